@@ -48,12 +48,17 @@ Section Lang.
   | EGetattr (o a : expr)                    (* getattr(o, a) *)
   | EGetattrDefault (o : expr) (a : string) (d : expr)   (* getattr(o, "a", d) *)
   | EStrOf (e : expr)                        (* str(e) *)
+  | EHasattr (o a : expr)                    (* hasattr(o, a) *)
+  | EIfExp (c t e : expr)                    (* t if c else e *)
+  | EListComp (elt : expr) (x : string) (it : expr)   (* [elt for x in it] (lists are tuples here) *)
   | ECall (f : string) (args : list expr) (star : option expr).
       (* a named function / method; keyword arguments are listed positionally in source order,
          their names being part of [f]'s text; [star] is the *args argument *)
 
   Inductive stmt :=
   | SAssign (x : string) (e : expr)
+  | SAssignTuple (xs : list string) (e : expr)      (* a, b = e *)
+  | SExpr (e : expr)                                (* an expression statement *)
   | SIf (c : expr) (t e : list stmt)
   | SReturn (e : expr)
   | SPass
@@ -159,6 +164,27 @@ Section Lang.
                    | _ => eval d en
                    end)
     | EStrOf a => eval a en
+    | EHasattr o a => bind (eval o en) (fun vo => bind (eval a en) (fun va =>
+                   match vo, va with
+                   | PObj ob, PStr s => match prim_getattr ob s with
+                                        | Norm _ => ret (PBool true)
+                                        | Exc x => if exn_isa x "AttributeError" then ret (PBool false) else ([], Exc x)
+                                        end
+                   | _, _ => ret (PBool false)
+                   end))
+    | EIfExp c t e => bind (eval c en) (fun v => if truthy v then eval t en else eval e en)
+    | EListComp elt x it =>
+        bind (eval it en) (fun v =>
+          match v with
+          | PTuple items =>
+              bind ((fix each (l : list pv) : res (list pv) :=
+                 match l with
+                 | [] => ret []
+                 | i :: r => bind (eval elt ((x, i) :: en)) (fun w => bind (each r) (fun ws => ret (w :: ws)))
+                 end) items) (fun ws => ret (PTuple ws))
+              
+          | _ => ([], Exc "TypeError")
+          end)
     | ECall f args star =>
         bind (evals args) (fun vs =>
           match star with
@@ -207,6 +233,12 @@ Section Lang.
       end in
     match st with
     | SAssign x e => of_eval (eval e en) (fun v => ([], Fall ((x, v) :: en)))
+    | SAssignTuple xs e => of_eval (eval e en) (fun v =>
+        match v with
+        | PTuple vs => if Nat.eqb (List.length xs) (List.length vs) then ([], Fall (bind_targets xs vs en)) else ([], Raise "ValueError")
+        | _ => ([], Raise "TypeError")
+        end)
+    | SExpr e => of_eval (eval e en) (fun _ => ([], Fall en))
     | SIf c t e => of_eval (eval c en) (fun v => if truthy v then execs t en else execs e en)
     | SReturn e => of_eval (eval e en) (fun v => ([], Ret v))
     | SPass => ([], Fall en)
